@@ -419,8 +419,7 @@ NextPList == \/ \E op \in {o \in POpsList : o.n \notin {"sort", "reverse"}} : PA
 InitPSet == PInit({})
 NextPSet == \/ \E op \in {o \in SeqSetOps : o.n # "assign" \/ TRUE} : PApply("set", ApplySet(st.val, op), op)
             \/ Persist \/ Rollback
-NextPDict == \/ \E op \in SeqDictOps \cup {Op("assign", 0, 0, ps, "dict") : ps \in {p \in PairSeqs : DistinctKeys(p)}} :
-                   PApply("dict", ApplyDict(st.val, op), op)
+NextPDict == \/ \E op \in SeqDictOps : PApply("dict", ApplyDict(st.val, op), op)
              \/ Persist \/ Rollback
 InitOrdE == InitEmit(InitOrd)
 InitPSetE == InitEmit(InitPSet)
@@ -436,6 +435,43 @@ PEdgeOK(kind) == [][last'.op.n \notin {"persist", "rollback"} =>
 PListEdgeOK == PEdgeOK("list")
 PSetEdgeOK == PEdgeOK("set")
 PDictEdgeOK == PEdgeOK("dict")
+\* ------------------------------------------------------------------ Mutable column values (C49)
+\* st = [val |-> value held by the attribute, db |-> stored value, dirty |-> the value changed in place since it was last
+\* synchronised with the database].  Persist = flush + commit; Expire = session.expire(obj) (the next access reloads, unflushed
+\* changes are discarded); Pickle = expunge, pickle round trip, add back; Merge = pickle copy merged into a NEW session.
+MInit(v0) == st = [val |-> v0, db |-> v0, dirty |-> FALSE] /\ last = PLast("init", v0)
+MApply(kind, r, op) == /\ Len(Items(kind, r.val)) <= MaxLen
+                       /\ st' = [st EXCEPT !.val = r.val, !.dirty = st.dirty \/ (r.val # st.val)] /\ last' = [op |-> op, exp |-> r]
+MPersist == st' = [st EXCEPT !.db = st.val, !.dirty = FALSE] /\ last' = PLast("persist", st.val)
+MExpire == st' = [st EXCEPT !.val = st.db, !.dirty = FALSE] /\ last' = PLast("expire", st.db)
+MPickle == st' = st /\ last' = PLast("pickle", st.val)
+MMerge == st' = [st EXCEPT !.dirty = (st.val # st.db)] /\ last' = PLast("merge", st.val)
+MSession == MPersist \/ MExpire \/ MPickle \/ MMerge
+InitMutList == MInit(<<>>)
+NextMutList == (\E op \in POpsList : MApply("list", ApplyList(st.val, op), op)) \/ MSession
+InitMutSet == MInit({})
+NextMutSet == \/ \E op \in SeqSetOps : MApply("set", ApplySet(st.val, op), op)
+              \/ \E x \in st.val : MApply("set", Ok(st.val \ {x}, "val", <<x>>, <<>>, <<x>>), Op("pop", 0, x, <<>>, ""))
+              \/ MSession
+NextMutDict == (\E op \in SeqDictOps \cup {Op("ior", 0, 0, ps, "dict") : ps \in {p \in PairSeqs : DistinctKeys(p)}}
+                            \cup {Op("assign", 0, 0, ps, "dict") : ps \in {p \in PairSeqs : DistinctKeys(p)}} :
+                    MApply("dict", ApplyDict(st.val, op), op)) \/ MSession
+\* a composite of two columns: a fixed-length list <<x, y>> whose fields are set in place, or the whole value replaced
+InitMutComp == MInit(<<0, 0>>)
+NextMutComp == (\E op \in {Op("setitem", i, x, <<>>, "") : i \in {0, 1}, x \in 0..K} \cup {Op("assign", 0, 0, <<x, y>>, "") : x, y \in 0..K} :
+                    MApply("list", ApplyList(st.val, op), op)) \/ MSession
+InitMutListE == InitEmit(InitMutList)
+InitMutSetE == InitEmit(InitMutSet)
+InitMutCompE == InitEmit(InitMutComp)
+\* C49 in the property's words
+\* every in-place change leaves the parent flagged (so that nothing that differs from the database can be clean) ...
+NoUntrackedChange == ~st.dirty => st.val = st.db
+MutationMarks == [][(last'.op.n \notin {"persist", "expire", "pickle", "merge"} /\ st'.val # st.val) => st'.dirty]_vars
+\* ... the flush stores exactly the in-memory value, the database changes in no other way, expiring returns to the stored value,
+\* pickling and merging change neither the value nor what is stored
+MPersistStores == [][last'.op.n = "persist" => (st'.db = st.val /\ st'.val = st.val /\ ~st'.dirty)]_vars
+MExpireReloads == [][last'.op.n = "expire" => (st'.val = st.db /\ st'.db = st.db)]_vars
+MPickleMergeKeep == [][last'.op.n \in {"pickle", "merge"} => (st'.val = st.val /\ st'.db = st.db)]_vars
 \* ------------------------------------------------------------------ LRUCache (util/_collections.py)
 \* st.d : entries [k, v] ordered by last use (least recently used first) - the counters of the code, canonicalised
 \* st.ref : ghost, key -> value most recently stored under it (0 = none / deleted)
